@@ -16,6 +16,7 @@ CONSTANTS
   EmitAtBound = FALSE
   Pin1 = 0
   Pin2 = 0
+  MaxMid = 0
   HistMax = 60
   AtomicPoll = TRUE
 INVARIANTS Emit PollOK TokensOK InterestsOK
